@@ -19,14 +19,12 @@ def prepare(patch):
     head = subprocess.check_output(["git", "-C", "/repo", "rev-parse", "HEAD"], text=True).strip()
     if not os.path.isdir("/tmp/repo_mut"):
         sh(["git", "-C", "/repo", "worktree", "add", "--detach", "/tmp/repo_mut", "HEAD"])
-    sh(["git", "-C", "/tmp/repo_mut", "checkout", "-q", "--detach", head]); sh(["git", "-C", "/tmp/repo_mut", "checkout", "-q", "--", "."])
+    sh(["git", "-C", "/tmp/repo_mut", "reset", "-q", "--hard"]); sh(["git", "-C", "/tmp/repo_mut", "checkout", "-q", "--detach", head]); sh(["git", "-C", "/tmp/repo_mut", "reset", "-q", "--hard", head])
     sh(["bash", "-c", "mkdir -p /tmp/hm && rsync -a --exclude target /verif/harness/ /tmp/hm/ && sed -i 's|path = \"/repo\"|path = \"/tmp/repo_mut\"|' /tmp/hm/Cargo.toml"])
     if patch:
-        rc, out = sh(["git", "-C", "/tmp/repo_mut", "apply", "--3way", patch])
+        rc, out = sh(["git", "-C", "/tmp/repo_mut", "apply", patch])
         if rc != 0:
-            rc, out = sh(["git", "-C", "/tmp/repo_mut", "apply", patch])
-            if rc != 0:
-                return "patch does not apply: " + out[-200:]
+            return "patch does not apply: " + out[-200:]
     rc, out = sh(["cargo", "build", "--release", "--offline"], cwd="/tmp/hm")
     if rc != 0:
         return "harness does not build: " + out[-300:]
@@ -71,7 +69,7 @@ def main():
                     break
         rows.append((sid, verdict, by, time.time() - t0))
         print("%s %s %s (%.0fs)" % (sid, verdict, by[:200], time.time() - t0), flush=True)
-    sh(["git", "-C", "/tmp/repo_mut", "checkout", "-q", "--", "."])
+    sh(["git", "-C", "/tmp/repo_mut", "reset", "-q", "--hard"])
     if not sel:
         with open("/verif/seeded/SCOREBOARD.md", "w") as f:
             f.write("# Seeded defects vs the quick tier of their property's check\n\nProduced by `seeded_regress.py` (patch applied to a scratch worktree, harness rebuilt against it, the property's quick instruments run with seed 1, first detecting instrument shown).\n\n| id | verdict | first detecting instrument: evidence |\n|---|---|---|\n")
